@@ -53,7 +53,7 @@ fn known_match<'a>(known: &'a [Value], id: &str, key: &str) -> Option<&'a Value>
 }
 
 fn write_evidence(run: &Run, violations: u64, extra: Value) {
-    let dir = format!("{}/evidence", verif_dir());
+    let dir = std::env::var("OWLMC_EVIDENCE_DIR").unwrap_or_else(|_| format!("{}/evidence", verif_dir()));
     let _ = std::fs::create_dir_all(&dir);
     let mut counters = serde_json::Map::new();
     for (i, n) in run.counter_names.iter().enumerate() {
@@ -261,7 +261,7 @@ fn cmd_check(id: &str, tier: Tier) -> u8 {
     let _ = std::fs::create_dir_all(&work);
     let crash = format!("{}/crash-{}.bin", work, id);
     let _ = std::fs::remove_file(&crash);
-    let _ = std::fs::remove_file(format!("{}/evidence/{}.json", verif_dir(), id));
+    let _ = std::fs::remove_file(format!("{}/{}.json", std::env::var("OWLMC_EVIDENCE_DIR").unwrap_or_else(|_| format!("{}/evidence", verif_dir())), id));
     let tier_s = if tier == Tier::Quick { "quick" } else { "thorough" };
     let start = std::time::Instant::now();
     let status = Command::new(&exe)
